@@ -50,6 +50,15 @@ def classify(idx, fi, t, valname, selfname):
         return "P", True
     if isinstance(e, ast.Name):
         return "var:" + e.id, True
+    if isinstance(e, ast.Call) and isinstance(e.func, ast.Attribute) and isinstance(e.func.value, ast.Name) and e.func.value.id == selfname:
+        # a helper method deciding "does the wanted type accept the producer's output?"
+        m = idx.find_method(fi.cls, e.func.attr) if fi.cls is not None else None
+        if m is not None:
+            rets = [n for n in own_nodes(m.node) if isinstance(n, ast.Return) and n.value is not None]
+            if rets and all(("accepts(" in K.src(r.value)) or ("issubclass(" in K.src(r.value)) for r in rets):
+                return "A", True
+    if isinstance(e, ast.Call) and ("accepts(" in s or "issubclass(" in s) and "output" in s:
+        return "A", True
     return None, None
 
 
